@@ -121,6 +121,12 @@ def run(ctx):
              "base.thrift": BASE_THRIFT}
     for nr in (False, True):
         cases.append({"id": "chain4-%s" % ("norecurse" if nr else "recurse"), "files": chain, "root": "top.thrift", "norecurse": nr, "funcs": [], "S": support})
+    # services of one name in different files: a service is identified by its file and its name
+    same = {"top.thrift": 'include "./alpha.thrift"\ninclude "./sub/beta.thrift"\nservice Health extends beta.Health { void own() }\nservice KV extends alpha.Probe { void put(1: string k) }\n',
+            "alpha.thrift": "service Health { bool ping() }\nservice Probe extends Health { void probe() }\n",
+            "sub/beta.thrift": "service Health { string status() }\nservice Probe extends Health { void look() }\n"}
+    for nr in (False, True):
+        cases.append({"id": "samename-%s" % ("norecurse" if nr else "recurse"), "files": same, "root": "top.thrift", "norecurse": nr, "funcs": [], "S": support})
     cf, of = os.path.join(ctx.dir("c19"), "cases.ndjson"), os.path.join(ctx.dir("c19"), "obs.ndjson")
     vlib.write_ndjson(cf, cases)
     vlib.run([drv, "c19", "-cases", cf, "-out", of], timeout=3000, check=True)
